@@ -24,8 +24,9 @@ class NoTrace:
 
 
 class Clause:
-    def __init__(self, label, fn, props=(), when=None, lemmas=()):
+    def __init__(self, label, fn, props=(), when=None, lemmas=(), assumable=True):
         self.label, self.fn, self.props, self.when = label, fn, tuple(props), when
+        self.assumable = assumable  # False: proved (or reported) for the function itself, never assumed by its callers
         self.lemmas = list(lemmas)  # [(label, fn(o, n, r))] proved in order, each usable by the next and by the goal
 
 
@@ -208,6 +209,8 @@ class Contract:
         for k in (() if silent else (eff or ())):
             ctx.effect(k, f"via {fi.qualname}", line)
         for c in self.ensures:
+            if not c.assumable:
+                continue
             try:
                 f = c.fn(oldr, newr, result)
             except TraceUnavailable:
